@@ -463,6 +463,89 @@ def _worker(args):
     return res
 
 
+class _Terminate(BaseException):
+    """raised in a worker by SIGTERM from the parent's wall guard"""
+
+
+def _child(job, conn):
+    import signal
+
+    def term(*a):
+        raise _Terminate()
+    try:
+        signal.signal(signal.SIGTERM, term)
+        res = _worker(job)
+    except BaseException as e:
+        res = {'test': job[1], 'shard': job[6], 'seed': job[3], 'status': 'harness',
+               'error': 'worker: %s: %s' % (type(e).__name__, e), 'collector': Collector().dump(),
+               'failure': None, 'wall_s': 0.0}
+    try:
+        signal.signal(signal.SIGTERM, signal.SIG_DFL)
+        conn.send(res)
+        conn.close()
+    finally:
+        sys.stdout.flush()
+        os._exit(0)
+
+
+def run_jobs(jobs, nproc, hard_s):
+    """run every job in its own forked process (at most nproc at a time), forked from this
+    single-threaded parent.  A worker that exits without a result is a harness error for its
+    shard; one that exceeds the outer wall guard is terminated and its shard is inconclusive
+    (what it had collected is kept when it can still answer)."""
+    import multiprocessing as mp
+    from multiprocessing.connection import wait
+    ctxmp = mp.get_context('fork')
+    pending = list(enumerate(jobs))
+    running = {}          # conn -> (index, job, process, t_start, t_termed)
+    results = [None] * len(jobs)
+
+    def lost(job, status, msg, wall):
+        return {'test': job[1], 'shard': job[6], 'seed': job[3], 'status': status, 'error': msg,
+                'collector': Collector().dump(), 'failure': None, 'wall_s': wall}
+
+    while pending or running:
+        while pending and len(running) < nproc:
+            i, job = pending.pop(0)
+            rd, wr = ctxmp.Pipe(duplex=False)
+            sys.stdout.flush()
+            p = ctxmp.Process(target=_child, args=(job, wr))
+            p.daemon = True
+            p.start()
+            wr.close()
+            running[rd] = [i, job, p, time.time(), None]
+        ready = wait(list(running), timeout=0.5)
+        now = time.time()
+        for rd in ready:
+            i, job, p, ts, tt = running.pop(rd)
+            try:
+                res = rd.recv()
+                if tt is not None and res.get('status') != 'violation':
+                    res['status'] = 'timeout'
+                    res['error'] = 'terminated by the outer wall guard after %.0f s' % (now - ts)
+            except (EOFError, OSError):
+                p.join(5)
+                if tt is not None:
+                    res = lost(job, 'timeout', 'killed by the outer wall guard after %.0f s' % (now - ts), now - ts)
+                else:
+                    res = lost(job, 'harness', 'worker exited without a result (exit code %s)' % p.exitcode, now - ts)
+            rd.close()
+            p.join(5)
+            if p.is_alive():
+                p.kill(); p.join(5)
+            results[i] = res
+        for rd, rec in list(running.items()):
+            i, job, p, ts, tt = rec
+            if tt is None and now - ts > hard_s:
+                rec[4] = now
+                try: p.terminate()
+                except Exception: pass
+            elif tt is not None and now - tt > 10:
+                try: p.kill()
+                except Exception: pass
+    return results
+
+
 def _has_violation(e):
     seen = set()
     stack = [e]
@@ -597,14 +680,9 @@ def main(argv=None):
             jobs.append((prop, t.name, tier, seed * 100000 + ti * 1000 + s, per, budget_s, s))
     results = []
     if jobs:
-        import multiprocessing as mp
-        ctxmp = mp.get_context('fork')
         nproc = min(len(jobs), nsh_default)
-        if nproc <= 1:
-            results = [_worker(j) for j in jobs]
-        else:
-            with ctxmp.Pool(nproc, maxtasksperchild=1) as pool:
-                results = pool.map(_worker, jobs, chunksize=1)
+        hard_s = float(os.environ.get('VERIF_HARD_S', 0) or (2 * budget_s + 120))
+        results = run_jobs(jobs, nproc, hard_s)
 
     # 3. merge
     total_cases = 0
@@ -616,6 +694,7 @@ def main(argv=None):
     samples = []
     per_test = {}
     budget_skipped = 0
+    inconclusive = []
     for r in results:
         c = r['collector']
         total_cases += c['cases']
@@ -640,6 +719,8 @@ def main(argv=None):
                                      'after_cases': c.get('first_fail_at')}))
         elif r['status'] == 'harness':
             harness_errors.append('%s shard %s: %s' % (r['test'], r['shard'], r.get('error')))
+        elif r['status'] == 'timeout':
+            inconclusive.append('%s shard %s: %s' % (r['test'], r['shard'], r.get('error')))
 
     wall = time.time() - t0
     if not samples and results:
@@ -658,6 +739,7 @@ def main(argv=None):
             'known_finding_hits': kf_hits,
             'replayed': replayed,
             'budget_skipped_cases': budget_skipped,
+            'inconclusive_shards': inconclusive,
             'shards': nsh_default,
             'exhaustive': False,
         },
@@ -679,6 +761,8 @@ def main(argv=None):
         print('  classes: ' + jdump(dict(sorted(labels.items()))))
         print('  subchecks: ' + jdump(ev['coverage']['subchecks']))
         print('  excluded: ' + jdump(excluded))
+    for m in inconclusive:
+        print('note: inconclusive (wall guard, not a violation): ' + m)
     for e in open_entries:
         print('KNOWN-FINDING: property=%s %s [%s; hits this run: %d]' % (
             prop, e.get('what', ''), e['id'], kf_hits.get(e['id'], 0)))
